@@ -35,7 +35,7 @@ from nucs.constants import (
     TYPE_COMPUTE_DOMAINS,
 )
 from nucs.numba_helper import function_from_address
-from nucs.propagators.propagators import COMPUTE_DOMAINS_FCTS, add_propagators, pop_propagator
+from nucs.propagators.propagators import ALG_AFFINE_EQ, COMPUTE_DOMAINS_FCTS, add_propagators, pop_propagator
 from nucs.solvers.solver import is_solved
 
 
@@ -110,7 +110,6 @@ def bound_consistency_algorithm(
             not_entailed_propagators_stack[top, prop_idx] = False
             statistics[STATS_IDX_PROPAGATOR_ENTAILMENT_NB] += 1
         shr_domains_changes = False
-        filter_again = False
         for var_idx in range(prop_var_end - prop_var_start):
             shr_domain_idx = prop_indices[var_idx]
             events = 0
@@ -137,13 +136,17 @@ def bound_consistency_algorithm(
                     shr_domain_idx,
                     events,
                 )
-            if (
-                shr_domains_stack[top, shr_domain_idx, MIN] != shr_domain_min
-                or shr_domains_stack[top, shr_domain_idx, MAX] != shr_domain_max
-            ):
-                # a shared domain occurring several times in the propagator is smaller than what the propagator computed
-                filter_again = True
-        if filter_again:
-            prop_idx = -1  # the propagator has not seen the final domains: it must not be skipped by pop_propagator
+        if shr_domains_changes:
+            if algorithms[prop_idx] == ALG_AFFINE_EQ:
+                prop_idx = -1  # one round of interval reasoning is not idempotent: the propagator must not be skipped by pop_propagator
+            for var_idx in range(prop_var_end - prop_var_start):
+                shr_domain_idx = prop_indices[var_idx]
+                if (
+                    shr_domains_stack[top, shr_domain_idx, MIN] != prop_domains[var_idx, MIN] - prop_offsets[var_idx, 0]
+                    or shr_domains_stack[top, shr_domain_idx, MAX] != prop_domains[var_idx, MAX] - prop_offsets[var_idx, 0]
+                ):
+                    # a shared domain occurring several times in the propagator is smaller than what the propagator computed:
+                    # the propagator has not seen the final domains, it must not be skipped by pop_propagator
+                    prop_idx = -1
         if not shr_domains_changes:
             statistics[STATS_IDX_PROPAGATOR_FILTER_NO_CHANGE_NB] += 1
